@@ -204,7 +204,7 @@ Proof.
     + inversion Hj. subst j. unfold ni, cq_info. cbn [i_value].
       destruct (mi_kind _ _ _ _ _ _ _ HI n i Hi) as [(K1 & _ & _ & _ & K5)|(K1 & e & l & Ke & Kev & Kr)].
       * apply MSpecI_input; assumption.
-      * eapply MSpecI_exec; eauto. eapply ev_msev; [eapply evr_ev; exact Kev|]. intros d x _ Hx. apply HfS; [|exact Hx].
+      * eapply MSpecI_exec; eauto. eapply evr_msev; [exact Kev|]. intros d x _ Hx. apply HfS; [|exact Hx].
         destruct Hx as [t Hx]. unfold old_fwd. rewrite Hi. eapply mi_obs_fwd; eauto.
     + eapply mi_V; eauto. congruence.
   - (* mi_PV *)
